@@ -45,7 +45,7 @@ func (p *Profile) pickKind(t *rapid.T) string {
 	for _, w := range p.Weights {
 		total += w.Weight
 	}
-	n := rapid.IntRange(0, total-1).Draw(t, "kind")
+	n := uniform(t, total, "kind")
 	for _, w := range p.Weights {
 		if n < w.Weight {
 			return w.Kind
@@ -138,6 +138,10 @@ func (p *Profile) query(t *rapid.T, s *Session, coll string) *cs.Query {
 			fs = gen.LeafFields
 		}
 		env.Values = collValues(c, fs)
+		env.ValuesOf = map[string][]interface{}{}
+		for _, f := range fs {
+			env.ValuesOf[f] = collValues(c, []string{f})
+		}
 	}
 	size := 0
 	if c != nil {
@@ -372,8 +376,14 @@ func (p *Profile) draw(t *rapid.T, s *Session) cs.Op {
 				}
 			case p.BadIds && mode == 11:
 				d["_id"] = gen.UpperId(10 + rapid.IntRange(0, 5).Draw(t, "upper"))
+			case p.GenIds && mode == 12 && i > 0 && !hasKey(docs[i-1], "_id"):
+				// a copy of the previous id-less document (the executor builds both from one Go map)
+				d = cs.CloneDoc(docs[i-1])
 			default:
 				id := p.freeId(t, c)
+				if rapid.IntRange(0, 14).Draw(t, "edge-id") == 0 {
+					id = gen.Id(22 + rapid.IntRange(0, 1).Draw(t, "edge-id-k")) // the all-F / all-zero UUID
+				}
 				for j := 0; used[id] && j < 40; j++ {
 					id = gen.Id(rapid.IntRange(0, 63).Draw(t, "idk2"))
 				}
@@ -435,7 +445,7 @@ func (p *Profile) draw(t *rapid.T, s *Session) cs.Op {
 	case "delete":
 		coll := p.liveColl(t, s)
 		return cs.Op{Kind: kind, Q: p.bulkQuery(t, s, coll)}
-	case "find", "count", "exists", "findfirst":
+	case "find", "iterate", "count", "exists", "findfirst":
 		coll := p.liveColl(t, s)
 		q := p.query(t, s, coll)
 		if s.M.Colls[coll] == nil && rapid.IntRange(0, 2).Draw(t, "missing-limit0") == 0 {
@@ -612,4 +622,23 @@ func itoa(i int) string {
 		s = "-" + s
 	}
 	return s
+}
+
+func hasKey(d cs.Doc, k string) bool {
+	_, ok := d[k]
+	return ok
+}
+
+// uniform draws an integer in [0, n) with (almost) equal probabilities. rapid's IntRange and
+// SampledFrom favour the low end of a range on purpose (a geometric choice of the bit length);
+// with about 100 weight units that gave the first kinds of a profile a third of all steps
+// (measured: createcoll 33% of the C06 steps at a weight of 5.6%).
+func uniform(t *rapid.T, n int, label string) int {
+	v := 0
+	for i := 0; i < 16; i++ {
+		if rapid.Bool().Draw(t, label) {
+			v |= 1 << i
+		}
+	}
+	return v % n
 }
